@@ -36,6 +36,7 @@ Fields(l) ==
   CASE k = "eth"  -> {F(12, 2)}
     [] k = "vlan" -> {F(0, 2), F(2, 2)}
     [] k = "llc"  -> {F(0, 1), F(1, 1), F(2, 1)} \cup (IF h = 8 THEN {F(3, 1), F(5, 1), F(6, 2)} ELSE {})
+                       \cup (IF h = 9 THEN {F(3, 1), F(4, 1), F(6, 1), F(7, 2)} ELSE {})
     [] k = "mpls" -> {F(2, 1)}
     [] k = "arp"  -> {F(0, 2), F(2, 2), F(4, 1), F(5, 1), F(6, 2)}
     [] k = "ip4"  -> {F(0, 1), F(2, 2), F(6, 2), F(9, 1)} \cup (IF h > 20 THEN {F(20, 1)} ELSE {})
@@ -50,6 +51,7 @@ Fields(l) ==
     [] k = "dhcp" -> {F(0, 1), F(1, 1), F(2, 1), F(236, 2), F(238, 2)}
                        \cup (IF h > 240 THEN {F(240, 1)} ELSE {})
                        \cup (IF h > 241 THEN {F(241, 1), F(242, 1), F(243, 1), F(244, 1)} ELSE {})
+                       \cup (IF v = "overload" THEN {F(44, 1), F(45, 1), F(108, 1), F(109, 1)} ELSE {})
     [] k = "dns"  -> {F(2, 2), F(4, 2), F(6, 2), F(8, 2), F(10, 2)}
                        \cup (IF h > 12 THEN {F(12, 1), F(16, 1), F(28, 1), F(29, 2)} ELSE {})
                        \cup (IF h > 33 THEN {F(33, 1), F(34, 1), F(35, 2), F(43, 2)} ELSE {})
@@ -74,7 +76,7 @@ Sel(l, f) ==
   LET k == l.k IN
   CASE k = "eth" /\ f = F(12, 2) -> L2Types
     [] k = "vlan" /\ f = F(2, 2) -> L2Types
-    [] k = "llc" /\ f = F(6, 2) -> L2Types
+    [] k = "llc" /\ f \in {F(6, 2), F(7, 2)} -> L2Types
     [] k = "ip4" /\ f = F(9, 1) -> IpProtos
     [] k = "ip6" /\ f \in {F(6, 1), F(40, 1), F(48, 1)} -> IpProtos
     [] k = "udp" /\ f \in {F(0, 2), F(2, 2)} -> {53, 67, 68, 520, 4789, 5353}
